@@ -642,13 +642,19 @@ def marshal (S : Schema) (d : Nat) (tag : Nat) (v : Val) : Res Bytes := do
   let (items, _) ← encK S 100000 dy.kind tag v none
   pure (encList items)
 
-/-- `ttlv.UnmarshalTTLV(bs, ptr)` / `dec.TagAny(tag, ptr)` with `ptr` a fresh pointer to the dyn type `d`. -/
-def unmarshal (S : Schema) (d : Nat) (tag : Nat) (bs : Bytes) : Res Val := do
-  let c ← Cur.start bs
-  let dy := S.dyn d
-  let tag := if tag = 0 then dy.defTag else tag
-  let k := match dy.kind with | .ptr k' => k' | k' => k'
-  let (x, _, _) ← decK S (bs.length + 8) k tag c none
-  pure (match dy.kind with | .ptr _ => Val.ptr (some x) | _ => x)
+/-- fuel of the typed decoder on an input of `n` bytes. The Go decoder has no such bound; the constant
+    covers every value the encoder (fuel 100000) can produce (`depth_bound` in Lemmas/PlanRoundtrip18). -/
+def decFuel (n : Nat) : Nat := n + 3000000
+
+/-- `ttlv.UnmarshalTTLV(bs, ptr)` / `dec.TagAny(tag, ptr)` with `ptr` a fresh pointer to the dyn type `d`.
+    A type id that denotes no type of the schema is an error (there is no such call in Go). -/
+def unmarshal (S : Schema) (d : Nat) (tag : Nat) (bs : Bytes) : Res Val :=
+  if S.dyns.length ≤ d then .err .other else do
+    let c ← Cur.start bs
+    let dy := S.dyn d
+    let tag := if tag = 0 then dy.defTag else tag
+    let k := match dy.kind with | .ptr k' => k' | k' => k'
+    let (x, _, _) ← decK S (decFuel bs.length) k tag c none
+    pure (match dy.kind with | .ptr _ => Val.ptr (some x) | _ => x)
 
 end Kmip
